@@ -157,16 +157,35 @@ Definition rx_match (r : rx) (s : qstr) : bool :=
   match r with RxContains l => containsb l s | RxPrefix l => prefixb l s | RxSuffix l => suffixb l s end.
 Definition rx_text (r : rx) : qstr :=
   match r with RxContains l => l | RxPrefix l => qs "^" ++ l | RxSuffix l => l ++ qs "$" end.
-(* message pattern: literals and the three placeholders message / type / category *)
-Inductive ptok := PLit (s : qstr) | PMessage | PType | PCategory.
+(* message pattern: literals, the three placeholders message / type / category, and the
+   conditional sections %{if-<type>} ... %{endif} (patternformatter.cpp: a section marker sets /
+   clears the condition attached to every following token; sections do not nest) *)
+Inductive ptok := PLit (s : qstr) | PMessage | PType | PCategory | PIf (t : mtype) | PEndif.
 Definition ptok_text (t : ptok) : qstr :=
   match t with PLit s => s | PMessage => qs "%{message}" | PType => qs "%{type}"
-             | PCategory => qs "%{category}" end.
+             | PCategory => qs "%{category}" | PIf t => qs "%{if-" ++ type_name t ++ qs "}"
+             | PEndif => qs "%{endif}" end.
 Definition pattern_text (p : list ptok) : qstr := List.concat (map ptok_text p).
 Definition ptok_value (m : msg) (t : ptok) : qstr :=
   match t with PLit s => s | PMessage => m_text m | PType => type_name (m_type m)
-             | PCategory => m_cat m end.
-Definition pattern_format (p : list ptok) (m : msg) : qstr := List.concat (map (ptok_value m) p).
+             | PCategory => m_cat m | PIf _ | PEndif => [] end.
+Definition cond_holds (c : option mtype) (m : msg) : bool :=
+  match c with None => true | Some t => mtype_eqb t (m_type m) end.
+Fixpoint pattern_go (c : option mtype) (p : list ptok) (m : msg) : qstr :=
+  match p with
+  | [] => []
+  | PIf t :: r => pattern_go (Some t) r m
+  | PEndif :: r => pattern_go None r m
+  | tok :: r => (if cond_holds c m then ptok_value m tok else []) ++ pattern_go c r m
+  end.
+(* does the pattern yield any token at all?  (no token: format() returns the message itself) *)
+Definition ptok_is_token (t : ptok) : bool :=
+  match t with PLit s => negb (emptyb s) | PIf _ | PEndif => false | _ => true end.
+(* the text PatternFormatter::format returns.  It is never a null QString (the result buffer is
+   reserved even when no section applies), so an empty result is shown as an empty record and
+   does NOT fall back to the raw message (LogMessage::isFormatted) *)
+Definition pattern_format (p : list ptok) (m : msg) : qstr :=
+  if existsb ptok_is_token p then pattern_go None p m else m_text m.
 
 (* ------------------------------------------------------------------ handlers and their evaluation *)
 Inductive cmode := CAuto | CAlways | CNever.                    (* ColorMode *)
